@@ -226,7 +226,8 @@ class EphysAlfCreator(object):
         n_clusters = cluster_channels.shape[0]
 
         clusters_depths = channel_positions[cluster_channels, 1]
-        clusters_depths[self.model.nan_idx] = np.nan
+        # ids without spikes have no depth (model.nan_idx lists them only when clusters were curated)
+        clusters_depths[np.setdiff1d(np.arange(n_clusters), self.cluster_ids)] = np.nan
         assert clusters_depths.shape == (n_clusters,)
 
         if self.model.sparse_features is None:
